@@ -1,5 +1,6 @@
 """C24 — A memory fault in a coroutine only fails that coroutine (mapping clause and installation order only)."""
 from rules.common import start
+from rules import wave2
 from rules import coro
 
 
@@ -12,4 +13,7 @@ def run(tier):
         not_decided=["everything after the redirect: corosensei's trap return, health of other coroutines and of the thread (needs execution)"],
         assumptions=["x86_64 Linux: REG_RSP holds the faulting stack pointer"])
     coro.trap_rule(run, fx["core/default"], "C24-MESSAGE", "C24-INSTALL")
+    # clauses added for the wave-2 seeds (rules/wave2.py; DESIGN 12a)
+    f = fx["core/default"]
+    wave2.fault_signals_unblocked_rule(run, f, "C24-FAULT-SIGNALS-UNBLOCKED")
     return run.finish()
